@@ -304,6 +304,19 @@ func importLines(progs []*Outcome) string {
 	return b.String()
 }
 
+// dropAPIImports removes extra imports of the go-co API itself (a second import name in the source rendering):
+// the reference rendering does not use the API package
+func dropAPIImports(lines string) string {
+	var kept []string
+	for _, l := range strings.Split(lines, "\n") {
+		if strings.Contains(l, "\"github.com/goghcrow/go-co\"") {
+			continue
+		}
+		kept = append(kept, l)
+	}
+	return strings.Join(kept, "\n")
+}
+
 // writeBatch writes src/<name>/ (one file per import style + reg.go) and ref/<name>/.
 func (p *Pipeline) writeBatch(b *batch) error {
 	byStyle := map[render.Style][]*Outcome{}
@@ -334,7 +347,7 @@ func (p *Pipeline) writeBatch(b *batch) error {
 			refProgs = append(refProgs, o)
 		}
 	}
-	fmt.Fprintf(&rf, fileHeaderRef, b.name, importLines(refProgs))
+	fmt.Fprintf(&rf, fileHeaderRef, b.name, dropAPIImports(importLines(refProgs)))
 	nref := 0
 	for _, o := range b.progs {
 		if o.Prog.NoRef || o.Prog.Native {
